@@ -156,6 +156,7 @@ class Scenario:
     queue_size: int = 2
     max_uptime: float = math.inf
     time_scale: float = 1.0
+    pre_scale: float = 1.0            # the application has set the global time scale itself before calling launch()
     log_interval: float = 60.0
     client: list = field(default_factory=list)          # [["POST","/api/pause"], ["GET","/api/status"], ["delay", 3.0]]
     save_condition: list = field(default_factory=list)  # scripted booleans (then False) | "raise"
@@ -511,6 +512,7 @@ class Harness:
                 return orig_dsave(self_, path)
             finally:
                 H._in_data_save = False
+                s.log("data", "saved_len", len(self_))
         self._patch(di.DataUser, "update", update_w)
         self._patch(di.DataUser, "save_state", dsave_w)
         orig_tsave = ptime.TimeController.save_state
@@ -660,6 +662,8 @@ class Harness:
                 web_api_address=("localhost", 8391), web_api_command_queue_size=sc.queue_size,
                 log_tick_time_statistics_interval=sc.log_interval, time_scale=sc.time_scale)
             s.boot_interrupt = sc.boot_interrupt
+            if sc.pre_scale != 1.0:
+                ptime.set_time_scale(sc.pre_scale)
             try:
                 launch(comps["interaction"], {}, {"buf": SequentialBuffer(8)},
                        comps["trainers"], cfg)
@@ -887,6 +891,12 @@ def build_components(H: Harness) -> dict:
                 super().save_state(path)
                 (path / "runs").write_text(str(self.runs))
                 H.sched.log("data", "write", f"trainer {int(self.name[7:])}")
+                u = getattr(self, "user", None)
+                if u is not None:
+                    # a trainer may well record something about its data (the size of the dataset it was trained
+                    # on so far): what it sees while the state is written is what the state's buffer file holds
+                    (path / "dataset_size").write_text(str(len(u)))
+                    H.sched.log("data", "trainer_sees", len(u))
 
         def load_state(self, path: Path) -> None:
             with H.cb(self.name, "load"):
